@@ -1493,14 +1493,16 @@ var c14KnownSig = map[string]string{
 }
 
 // c14KnownCase: shapes on which the typing verdict is not applied.
-//   float-equality              the one known finding: reported under its own signature, and
-//                               only if it shows exactly as recorded (accepted, then an
-//                               operand-type error at execution)
-//   function-parameter-type     parameter TYPES of functions are not among the faults the
-//                               property lists: neither required to be rejected nor judged
-//   number-list-element-as-text, in-list-element-kind
-//                               element access / membership on list VALUES is dynamically typed
-//                               like JSON field access, which the property excepts
+//
+//	float-equality              the one known finding: reported under its own signature, and
+//	                            only if it shows exactly as recorded (accepted, then an
+//	                            operand-type error at execution)
+//	function-parameter-type     parameter TYPES of functions are not among the faults the
+//	                            property lists: neither required to be rejected nor judged
+//	number-list-element-as-text, in-list-element-kind
+//	                            element access / membership on list VALUES is dynamically typed
+//	                            like JSON field access, which the property excepts
+//
 // The twin comparison (accept / position / tree) still runs for all of them (mode 1).
 func c14KnownCase(e *emitter, s *xstmt, shape string) {
 	idx, o, rp := c14Case(e, s, "not-judged", shape, "", 1)
